@@ -3,6 +3,10 @@
 check of its property and records the verdict: seeded/<name>/meta.json['checks_run'],
 seeded/RESULTS.md and mutants/RESULTS.md. usage: seed_matrix.py [seeds|mutants|all]"""
 import glob, json, os, re, subprocess, sys
+from concurrent.futures import ThreadPoolExecutor
+PAR = int(os.environ.get('SEED_MATRIX_PAR', '3'))
+# seeds that break their property only in a way another property's check is the natural detector of
+ALSO = {'C03-lock-only-around-batch': ['C10']}
 what = sys.argv[1] if len(sys.argv) > 1 else 'all'
 rows = []
 def run(patch, prop):
@@ -13,9 +17,20 @@ def run(patch, prop):
     return head, first
 if what in ('seeds', 'all'):
     out = ['| seed | property | verdict | first counterexample |', '|---|---|---|---|']
-    for d in sorted(glob.glob('/verif/seeded/*/')):
+    dirs = sorted(glob.glob('/verif/seeded/*/'))
+    def one(d):
         name = os.path.basename(d.rstrip('/')); prop = name.split('-')[0]
         head, first = run(d + 'patch.diff', prop)
+        used = prop
+        if 'DETECTED' not in head:
+            for other in ALSO.get(name, []):
+                h2, f2 = run(d + 'patch.diff', other)
+                if 'DETECTED' in h2:
+                    head, first, used = h2, f2, '%s (by %s)' % (prop, other)
+        return d, name, used, head, first
+    with ThreadPoolExecutor(PAR) as ex:
+        results = list(ex.map(one, dirs))
+    for d, name, prop, head, first in results:
         verdict = 'DETECTED' if 'DETECTED' in head else ('NOT APPLICABLE' if 'PATCH' in head else 'MISSED')
         m = json.load(open(d + 'meta.json')); m['checks_run'] = [head, first[:300]]; json.dump(m, open(d + 'meta.json', 'w'), indent=1)
         out.append('| %s | %s | %s | %s |' % (name, prop, verdict, first[6:200].replace('|', '\\|')))
@@ -23,9 +38,12 @@ if what in ('seeds', 'all'):
     open('/verif/seeded/RESULTS.md', 'w').write('# Sub-agent seeded changes vs. the check of their property (quick tier, seed 0)\n\n' + '\n'.join(out) + '\n')
 if what in ('mutants', 'all'):
     out = ['| mutant | property | verdict | first counterexample |', '|---|---|---|---|']
-    for p in sorted(glob.glob('/verif/mutants/*.diff')):
+    def onem(p):
         name = os.path.basename(p)[:-5]; prop = name.split('_')[0].upper()
-        head, first = run(p, prop)
+        return (name, prop) + run(p, prop)
+    with ThreadPoolExecutor(PAR) as ex:
+        mres = list(ex.map(onem, sorted(glob.glob('/verif/mutants/*.diff'))))
+    for name, prop, head, first in mres:
         verdict = 'DETECTED' if 'DETECTED' in head else ('NOT APPLICABLE' if 'PATCH' in head else 'MISSED')
         out.append('| %s | %s | %s | %s |' % (name, prop, verdict, first[6:200].replace('|', '\\|')))
         print(name, verdict)
